@@ -31,6 +31,7 @@ func init() {
 			n := pick(tier, 6, 15)
 			out := shardsVar(n, Child{Flavour: "plain", NCPU: 1, Params: map[string]string{"path": "all"}})
 			out = append(out, Child{Flavour: "noadx", NCPU: 1, Shard: 0, NShards: 1, Params: map[string]string{"path": "noadx-build"}})
+			out = append(out, Child{Flavour: "amd64adx", NCPU: 1, Shard: 2 % n, NShards: n, Params: map[string]string{"path": "all"}})
 			return plus386(out, 1)
 		},
 		Run: runC15,
